@@ -102,10 +102,12 @@ class Process(multiprocessing.Process):
 
         self.logger.debug("starting")
         while True:
-            if self.job_queue.empty():
+            # Queue.empty() is unreliable between processes (it can report True while
+            # jobs are still in flight), so the end of the jobs is marked by a StopCommand
+            job = self.job_queue.get()
+            if job is StopCommand:
                 break
             else:
-                job = self.job_queue.get()
                 try:
                     self.queue.put(
                         job.perform(
@@ -162,6 +164,9 @@ class Process(multiprocessing.Process):
         for job in jobs:
             job_queue.put(job)
             total += 1
+
+        for _ in processes:
+            job_queue.put(StopCommand)
 
         logger.info(
             f"Running {total} jobs across {number_of_cores} processes"
